@@ -397,6 +397,21 @@ def weighted(rc):
     rc.ob(f"EM E-step weights: {[norm(n.value, 90) for n in wt]}")
     if not okw:
         rc.fail(w, w.node, "E-step weights of one observed row must be its posterior over latent states (normalised) times the row's multiplicity", construct="em weights")
+    # key shapes of the multiplicity table agree between writer and reader: `groupby([c1, …]).size().to_dict()` is keyed by TUPLES only for two or more columns
+    # (one column: scalars), while the E-step reads it with `tuple(row)` — with exactly one observed column every lookup is a KeyError
+    cwf = repo.func(EM, "ExpectationMaximization._compute_weights")
+    writers = [(n_, b_) for n_, b_ in tm.find_all(cwf.node, "_N = __DF.groupby(__L, observed=True).size().to_dict()")] + \
+              [(n_, b_) for n_, b_ in tm.find_all(cwf.node, "_N = __DF.groupby(__L).size().to_dict()")]
+    always_tuples = bool(tm.find_all(cwf.node, "_N = __DF.value_counts().to_dict()"))
+    reads_tuple = any(isinstance(n, ast.Subscript) and norm(n.value) == "n_counts" and isinstance(n.slice, ast.Call) and call_name(n.slice) == "tuple" for n in ast.walk(w.node))
+    if not writers and not always_tuples:
+        raise AnalysisError("EM._compute_weights: multiplicity table not found")
+    for n_, b_ in writers:
+        normed = any(isinstance(d, ast.DictComp) and isinstance(d.key, ast.Tuple) and len(d.key.elts) == 1 and b_["_N"] in norm(d.generators[0].iter) for d in ast.walk(cwf.node))
+        rc.ob(f"EM multiplicity table `{norm(n_, 80)}`: read with tuple(row) {reads_tuple}; scalar keys of the one-column case re-keyed as 1-tuples {normed}")
+        if reads_tuple and not normed:
+            rc.fail(cwf, n_, "EM: the multiplicity table is keyed by scalars when there is exactly one observed column (groupby over a one-element list) but is read with "
+                    "tuple(row): KeyError for every row of a data set with one observed variable", construct="em multiplicity key shape")
     # E-step batches cover every distinct observed row exactly once (evaluated on concrete sizes)
     from ..layout import Env, eval_expr
     cw = repo.func(EM, "ExpectationMaximization._compute_weights")
@@ -456,6 +471,8 @@ def defuse(rc):
     _sh.defuse_rule(rc, _sh.anchor_files("C06"))
 
 MUTANTS = [
+    dict(kind="break", name="em-multiplicity-scalar-keys", file=EM, expect="C06.weighted",
+         old="        if self.data.shape[1] == 1:\n            # groupby on a single column gives scalar keys; rows are looked up as tuples.\n            n_counts = {(key,): value for key, value in n_counts.items()}\n", new=""),
     dict(kind="break", name="bayesian-estimator-rebuilds-from-edges", file=BE, expect="C06.weighted",
          old="                model_bn.add_nodes_from(model.nodes())\n", new=""),
     dict(kind="break", name="mle-parents-unsorted", file=MLE, expect="C06.parentorder",
